@@ -478,7 +478,7 @@ def gen_export_case(rng, idx, quick):
     band = rng.choice(["small", "small", "512", "513+", "1024", "1025+", "2049+", "big"])
     N = {"small": rng.randint(1, 40), "512": rng.randint(505, 512), "513+": rng.randint(513, 640), "1024": rng.randint(1017, 1024),
          "1025+": rng.randint(1025, 1300), "2049+": rng.randint(2049, 2200),
-         "big": rng.randint(2500, 4200 if quick else 20000)}[band]
+         "big": rng.randint(2500, 4200 if quick else 9000)}[band]
     nums = list(range(1, N))                       # the root gets N, as alloc_inode_num_dfs numbers it
     order = rng.choice(["asc", "asc", "perm", "desc", "first-big", "gaps", "repeats"])
     if order == "perm":
@@ -1221,6 +1221,10 @@ def run_pack_case(env, case, scratch):
         res["order_bad"] = order_failures(case, used, real, spec if matched == ("fix", "fix") else None)
         res["export_bad"] = export_failures(env, case, real)
         res["tree_bad"] = tree_failures(env, case, real, d)
+        nb = numbering_failures(env, case, real)
+        res["stats"]["numbered"] = 0 if nb is None else 1
+        for b in nb or []:
+            res["problems"].append(("numbering", b))
         if real["imglen"] % case["devblk"]:
             res["problems"].append(("padding", "image length %d not a multiple of -B %d" % (real["imglen"], case["devblk"])))
     except HarnessCrash as e:
@@ -1324,6 +1328,59 @@ def monitor_read(env, case, real, table, order):
         if last != "ok":
             lean_eff = last.split()
     return [p for (p, c), o in zip(keys, out) if unhx(o) != c], lean_eff
+
+
+def tree_tokens(case):
+    """the tree of a case as `number` tokens: (number of root children, tokens, paths in the same pre-order)"""
+    root = {}
+
+    def put(p, kind):
+        parts, d = p.split(b"/"), root
+        for c in parts[:-1]:
+            d = d.setdefault(c, {})
+            if not isinstance(d, dict):
+                raise vlib.CheckFailure("generator: %r below a non-directory" % p)
+        if kind == "d":
+            d.setdefault(parts[-1], {})
+        else:
+            d[parts[-1]] = kind
+    for p in case["paths"]:
+        put(p, "f")
+    for k, q, _ in case.get("others", []):
+        put(q, {"h": "h", "d": "d"}.get(k, "f"))
+    toks, order = [], []
+
+    def walk(d, prefix):
+        for name in sorted(d):                                       # strcmp order, as insert_sorted keeps the children
+            v, path = d[name], prefix + name
+            order.append(path)
+            if isinstance(v, dict):
+                toks.append("d%d" % len(v))
+                walk(v, path + b"/")
+            else:
+                toks.append(v)
+    walk(root, b"")
+    return len(root), toks, order
+
+
+def numbering_failures(env, case, real):
+    """the inode numbering model behind export_table_of_tree (Sqfs/Model/Numbering.lean) against the image: inode
+    count and the number of every file whose inode was located.  Not for trees with hard links (reorder_hard_links
+    renumbers afterwards and is not modelled)."""
+    if any(k == "h" for k, _, _ in case.get("others", [])):
+        return None
+    k, toks, order = tree_tokens(case)
+    ans = env.run_model(["number %d %s" % (k, " ".join(toks))])[0].split()
+    if len(ans) != len(order) + 2:
+        raise vlib.CheckFailure("number: %d answers for %d nodes" % (len(ans) - 2, len(order)))
+    bad = []
+    if int(ans[0]) != real["im"].inode_count or int(ans[1]) != int(ans[0]):
+        bad.append("inode count: model %s (root %s), image %d" % (ans[0], ans[1], real["im"].inode_count))
+    want = dict(zip(order, ans[2:]))
+    for p, ino in real["files"].items():
+        if str(ino["number"]) != want.get(p):
+            bad.append("inode number of %r: model %s, image %d" % (p, want.get(p), ino["number"]))
+    return bad[:5]
 
 
 def tree_failures(env, case, real, d):
@@ -1439,7 +1496,8 @@ def judge(case, res, summary):
             out.append((KEY_D24, "nosparse all-zero tail alone in its fragment block: %s" % what, True))
             summary["d24"] += 1
             continue
-        out.append(("%s:%s" % (kind, case_hash(case)), "%s: %s" % (cid, what), True))
+        # model of the inode numbering ≠ image: the correspondence behind export_table_of_tree broke, no property clause fails
+        out.append(("%s:%s" % (kind, case_hash(case)), "%s: %s" % (cid, what), kind != "numbering"))
     if "matched" not in res:
         return out
     summary["compared"] += 1
@@ -1581,7 +1639,7 @@ def run(ctx):
     if sa.get("sort_cases") and missing:
         raise vlib.CheckFailure("part A never exercised the rejection(s) %s" % sorted(missing))
     # ---- part C: the export table of dir_writer.c alone -----------------------------------------------------------
-    cases_c = [gen_export_case(ctx.rng, i, quick) for i in range(160 if quick else 1500)]
+    cases_c = [gen_export_case(ctx.rng, i, quick) for i in range(160 if quick else 700)]
     # fixed shapes first: exactly at and just beyond the initial capacity and the first metadata block
     for k, (n, order) in enumerate([(512, "asc"), (513, "asc"), (513, "first-big"), (1024, "asc"), (1025, "asc"), (1025, "desc"),
                                     (2049, "perm"), (4097, "first-big")]):
@@ -1630,6 +1688,7 @@ def run(ctx):
             for k in ("files", "blocks", "frags", "shared", "sparse_files"):
                 hist[k] += st.get(k, 0)
             hist["nlink_gt1"] = hist.get("nlink_gt1", 0) + st.get("nlink_gt1", 0)
+            hist["numbered"] = hist.get("numbered", 0) + st.get("numbered", 0)
             hist["area_bytes"] += st.get("area", 0)
             for fl in st.get("flags", []):
                 hist["flagsets"][str(fl)] = hist["flagsets"].get(str(fl), 0) + 1
@@ -1654,7 +1713,8 @@ def run(ctx):
     if not ctx.violations and (summary["compared"] != len(cases_b) - summary["generator_rejects"] or summary["generator_rejects"] > len(cases_b) // 20
                                or sum(1 for n in big if n >= 513) < 2 or sum(1 for n in big if n >= 1025) < 1
                                or hist.get("twins", 0) == 0 or hist.get("jobs_gt1", 0) == 0 or hist.get("other_nodes", 0) == 0
-                               or hist.get("nlink_gt1", 0) < hist.get("hardlinks", 0) or hist.get("hardlinks", 0) == 0):
+                               or hist.get("nlink_gt1", 0) < hist.get("hardlinks", 0) or hist.get("hardlinks", 0) == 0
+                               or hist.get("numbered", 0) < len(cases_b) // 2):
         raise vlib.CheckFailure("part B degenerated: %s %s" % (summary, {k: hist.get(k) for k in ("twins", "jobs_gt1", "other_nodes", "hardlinks", "nlink_gt1", "via_glob")}))
     ctx.cov.update({
         "evaluations": sa.get("sort_cases", 0) + len(cases_b) + sc.get("export_cases", 0),
